@@ -32,6 +32,11 @@ PATTERNS = [
 ]
 
 
+def pattern(p):
+    """Arguments of call pattern p: the table, and beyond it f(p) -- one more distinct int key each."""
+    return PATTERNS[p] if p < len(PATTERNS) else ((p,), {})
+
+
 class Boom(Exception):
     pass
 
@@ -105,7 +110,7 @@ class Sys:
             self.target = lambda n: self.insts[n].f if n else K.f
 
     def call(self, p, n, fail=False):
-        a, kw = PATTERNS[p]
+        a, kw = pattern(p)
         self.fail_next = fail
         before = len(self.invocations)
         f = self.target(n)
@@ -137,7 +142,7 @@ class Sys:
         self.target(1 if self.insts else 0).cache_clear()
 
     def discard(self, p, n):
-        a, kw = PATTERNS[p]
+        a, kw = pattern(p)
         self.target(n).cache_discard(*a, **kw)
 
 
@@ -334,10 +339,13 @@ def twin_discard(twin, p, n):
 def random_history(args):
     seed, maxsize, typed, form, length = args
     rnd = random.Random(seed)
+    many = maxsize is not None and maxsize >= 32
     real = Sys("asyncstdlib", form, maxsize, typed)
     twin = Sys("functools", form, maxsize, typed)
     ev, viol = [], []
     pats = rnd.sample(range(1, 18), rnd.randint(3, 9))
+    if many:       # a cache larger than the table of patterns: enough distinct int keys to overflow it several times
+        pats = list(range(100, 100 + maxsize + rnd.randint(8, 40)))
     discarded = False
     for j in range(length):
         x = rnd.random()
@@ -408,15 +416,17 @@ def check(prop, tier, seed, into=None):
             v.sample({"cfg": {"maxsize": maxsize, "typed": typed, "form": form, "patterns": pats}, "history": [e["a"] for e in paths[len(paths) // 2]]}, cap=4)
     # code -> spec: long random histories, validated by TLC per (maxsize, typed) configuration
     rnd = random.Random(seed)
-    nhist = 60 if tier == "quick" else 600
+    nhist = 80 if tier == "quick" else 640
     groups = {}
-    combos = [(2, False, "func"), (3, True, "func"), (None, False, "func"), (1, True, "method"), (0, False, "func"), (5, False, "staticmethod")]
+    combos = [(2, False, "func"), (3, True, "func"), (None, False, "func"), (1, True, "method"), (0, False, "func"), (5, False, "staticmethod"),
+              (32, False, "func"), (128, False, "bare")]       # ... caches larger than the pattern table: hundreds of operations over int keys
     if tier == "thorough":
         combos += [(-1, True, "func"), (None, True, "method"), (2, True, "func"), (3, False, "method"), (1, False, "func"),
                    (5, True, "func"), (2, False, "classmethod"), (4, False, "func")]
     for i in range(nhist):
         maxsize, typed, form = combos[i % len(combos)]
-        groups.setdefault((maxsize, typed, form), []).append((seed * 7919 + i, maxsize, typed, form, rnd.randint(30, 60)))
+        length = rnd.randint(250, 400) if (maxsize is not None and maxsize >= 32) else rnd.randint(30, 60)
+        groups.setdefault((maxsize, typed, form), []).append((seed * 7919 + i, maxsize, typed, form, length))
     trace_stats = {"traces": 0, "events": 0, "states": 0, "wall": 0.0, "runs": 0}
     for (maxsize, typed, form), jobs in sorted(groups.items(), key=str):
         hs = [random_history(j) for j in jobs]
